@@ -7,6 +7,9 @@
 //	c36 replay22 <repo> <cases22.ndjson>    every fixture block through the chain-sync
 //	                                        roll-forward constructors / wrappers and through a
 //	                                        real Server.RollForward -> client callback round trip
+//	c36 serve22 <repo> <serve22.ndjson>...  histories of interleaved construct / encode steps of
+//	                                        several serve operations (ChainSyncServe.tla), and two
+//	                                        connections served concurrently through real engines
 package main
 
 import (
@@ -49,6 +52,8 @@ func main() {
 		replay36(rep, os.Args[2], os.Args[3])
 	case "replay22":
 		replay22(rep, os.Args[2], os.Args[3])
+	case "serve22":
+		serve22(rep, os.Args[2], os.Args[3:])
 	default:
 		rep.Dead("unknown mode %q", os.Args[1])
 	}
